@@ -383,6 +383,15 @@ class QasmProcessor:
                             )
                         )
                     curr_gate.gates_inside.append([name, gate_args, gate_regs])
+                elif command[0] == "barrier":
+                    continue
+                elif command[0] == "gate":
+                    raise SyntaxError("QASM: incorrect bracket formatting")
+                else:
+                    err = "QASM: {} is not a valid QASM command.".format(
+                        command[0]
+                    )
+                    raise SyntaxError(err)
             elif command[0] == "gate":
                 # Custom definition of gates.
                 gate_name = command[1]
